@@ -15,4 +15,18 @@ CLAIMS = {
                 "`x & !mask` written as shift-right/shift-left (validated over the whole u64 range by the correspondence run).",
     },
 }
+CLAIMS["C17"] = {
+    "text": "Proved in Lean, for ALL labels of length 0..256 with arbitrary bytes beyond the length (no alignment assumption): "
+            "is_prefix_of = prefix of bit strings; get_prefix keeps the first n bits and clears the rest; longest common prefix = "
+            "common prefix of the bit strings and is normalised; get_prefix_ordering = next-bit direction; Ord = (length, 256-bit "
+            "lexicographic); ofBits/bits round trip. For label sets: the binary-search implementations of partition, set-lcp and "
+            "contains_prefix (a literal model of std's binary_search_by / partition_point) equal the linear ones on sorted "
+            "equal-length sets, and insertion sort sorts. The byte-level model (shifts, masks, loops) is tied to the Rust by an "
+            "exhaustive+structured correspondence run (all pairs of short labels, every length with adversarial patterns, all small "
+            "label sets via the cfg(akd_verif) hook), judged additionally by an independent bit-string oracle in the harness.",
+    "note": BASE_NOTE + "Per-byte shift facts are finite tables closed by `decide +kernel` over Fin 256 x Fin 8 x Fin 8 and lifted to UInt8. "
+            "`sort_unstable` is modelled by insertion sort (any sort agrees up to the order of equal labels). setLcp_sorted_eq_linear "
+            "needs the configuration's empty label to have length 0 (true of both; the statement without it is false: "
+            "setLcp_counterexample). Lengths > 256 are covered by the correspondence run only.",
+}
 NOT_YET = {}
